@@ -5,6 +5,8 @@ Open Scope N_scope.
 
 (* Success: exit 0; every requested target's file holds exactly what the library returns for that
    target; every other path (the input included, when it is no output path) is as before. *)
+From Verif Require Import Facts.C19Facts.
+
 Theorem C19_writes_exactly : forall lib fs args o,
   parse_options fs args = Some o ->
   (forall t, In t (o_targets o) -> lib (o_in o) t <> None) ->
@@ -14,14 +16,14 @@ Theorem C19_writes_exactly : forall lib fs args o,
             | Some t => match lib (o_in o) t with Some s => Some (File s) | None => None end
             | None => fs_find p fs
             end.
-Proof. intros lib fs args o Hp Hall. unfold tsh. rewrite Hp. apply emit_all_ok. exact Hall. Qed.
+Proof. exact C19_writes_exactly_proof. Qed.
 Print Assumptions C19_writes_exactly.
 
 (* Bad options (unknown switch, missing value, missing or wrong input/output, unknown target, nothing requested):
    non-zero exit and an unchanged file system. *)
 Theorem C19_bad_options : forall lib fs args,
   parse_options fs args = None -> tsh lib fs args = (fs, ExitPanic).
-Proof. intros lib fs args H. unfold tsh. rewrite H. reflexivity. Qed.
+Proof. exact C19_bad_options_proof. Qed.
 Print Assumptions C19_bad_options.
 
 (* A target for which the library reports an error: non-zero exit, and that target's output file is
@@ -30,7 +32,7 @@ Theorem C19_failing_target_clean : forall lib fs args o t,
   parse_options fs args = Some o -> In t (o_targets o) -> lib (o_in o) t = None ->
   snd (tsh lib fs args) = ExitPanic /\
   fs_find (out_path o t) (fst (tsh lib fs args)) = fs_find (out_path o t) fs.
-Proof. intros lib fs args o t Hp Hin Hf. unfold tsh. rewrite Hp. apply emit_all_fail; assumption. Qed.
+Proof. exact C19_failing_target_clean_proof. Qed.
 Print Assumptions C19_failing_target_clean.
 
 (* Whatever happens, a path that is no output path of a requested target is untouched
@@ -38,10 +40,7 @@ Print Assumptions C19_failing_target_clean.
 Theorem C19_nothing_else_touched : forall lib fs args p,
   (forall o t, parse_options fs args = Some o -> In t (o_targets o) -> p <> out_path o t) ->
   fs_find p (fst (tsh lib fs args)) = fs_find p fs.
-Proof.
-  intros lib fs args p H. unfold tsh. destruct (parse_options fs args) as [o|] eqn:E; [|reflexivity].
-  apply emit_all_other. intros t Ht. apply (H o t eq_refl Ht).
-Qed.
+Proof. exact C19_nothing_else_touched_proof. Qed.
 Print Assumptions C19_nothing_else_touched.
 
 (* The order in which targets are requested and naming a target twice do not matter. *)
@@ -49,13 +48,7 @@ Theorem C19_target_order_and_repetition : forall lib fs o ts1 ts2,
   (forall t, In t ts1 <-> In t ts2) ->
   (forall t, In t ts1 -> lib (o_in o) t <> None) ->
   forall p, fs_find p (fst (emit_all lib o ts1 fs)) = fs_find p (fst (emit_all lib o ts2 fs)).
-Proof.
-  intros lib fs o ts1 ts2 Heq Hall p.
-  destruct (emit_all_ok lib o ts1 fs Hall) as [_ H1].
-  assert (forall t, In t ts2 -> lib (o_in o) t <> None) as Hall2 by (intros t Ht; apply Hall; apply Heq; exact Ht).
-  destruct (emit_all_ok lib o ts2 fs Hall2) as [_ H2].
-  rewrite H1, H2. rewrite (find_set_equiv o p ts1 ts2 Heq). reflexivity.
-Qed.
+Proof. exact C19_target_order_and_repetition_proof. Qed.
 Print Assumptions C19_target_order_and_repetition.
 
 (* Non-vacuity: a concrete run.  "-t bash -i a.b.tsh -o out -t batch -t bash" writes out/a.b.sh and out/a.b.bat. *)
